@@ -74,6 +74,13 @@ fn run(prop: &str, tier: Tier) -> i32 {
         }
     };
     let mut run = Run::new(prop, engine, tier);
-    let st = f(&mut run);
+    let mut st = f(&mut run);
+    if engine == "serve_mc" {
+        // histories of two requests on one fresh thread (state must not survive a call)
+        let pairs = s::run_pairs(prop);
+        run.extra.insert("request_pair_histories".into(), serde_json::json!(pairs.evaluations));
+        run.rule.push_str("; plus every ordered pair (A, B) over a set of requests reaching every response class (incl. the multipart-overflow 413), run as 'A then B' on a fresh OS thread, B judged by the same oracle (serve() must not keep state between calls)");
+        st.merge(pairs);
+    }
     run.finish(st)
 }
